@@ -6,9 +6,12 @@
 //!   sim child ... / sim exec ...                        internal: disposable children
 
 mod alloc;
+mod c05;
+mod c05t;
 mod c11;
 mod cborref;
 mod faults;
+mod gen;
 mod kernel;
 mod minimize;
 mod report;
@@ -31,6 +34,8 @@ fn check_by_name(name: &str) -> Option<&'static dyn Check> {
   match name {
     "c11" => Some(&c11::C11_CHECK),
     "c11x" => Some(&c11::C11X_CHECK),
+    "c05" => Some(&c05::C05_CHECK),
+    "c05g" => Some(&c05::C05G_CHECK),
     _ => None,
   }
 }
@@ -82,6 +87,7 @@ fn main() {
       println!("VERIF_SEED={} check={} tier={}", seed, args[2], tier.as_str());
       let code = match args[2].as_str() {
         "c11" => run_c11(seed, tier),
+        "c05" => run_c05(seed, tier),
         _ => usage(),
       };
       std::process::exit(code);
@@ -254,6 +260,195 @@ fn run_c11(seed: u64, tier: Tier) -> i32 {
     extra,
   };
   report::finish(&rep, &agg, findings, t0.elapsed().as_secs_f64(), Some(false), &|_, _| true)
+}
+
+// ------------------------------------------------------------------------------------------------
+// C05
+
+fn run_c05(seed: u64, tier: Tier) -> i32 {
+  let t0 = Instant::now();
+  let workers = workers_from_env();
+  // phase 1: deterministic growth check over the parametric families
+  let gplan = Plan {
+    check: "c05g",
+    seed,
+    tier,
+    total: c05::C05G::total_runs(),
+    batch: 1,
+    workers,
+    deadline: None,
+    keep_fps: false,
+    sample_below: 3,
+  };
+  let gagg = run_plan(&gplan);
+  // phase 2: seeded search over worlds x faults
+  let total = runs_from_env(match tier {
+    Tier::Quick => 24_000,
+    Tier::Thorough => 3_000_000,
+  });
+  let plan = Plan {
+    check: "c05",
+    seed,
+    tier,
+    total,
+    batch: 200,
+    workers,
+    deadline: if tier == Tier::Thorough { thorough_deadline(1200) } else { None },
+    keep_fps: false,
+    sample_below: 6,
+  };
+  let mut agg = run_plan(&plan);
+
+  let known = report::load_known().unwrap_or_default();
+  let mut raw: Vec<(u64, Violation)> = Vec::new();
+  let mut notes: Vec<String> = Vec::new();
+  let max_deaths = if tier == Tier::Quick { 400 } else { 2000 };
+  for (check, a) in [("c05g", &gagg), ("c05", &agg)] {
+    // deaths are triaged in parallel: each needs a handful of child executions
+    let deaths: Vec<&Death> = a.deaths.iter().take(max_deaths).collect();
+    let results: std::sync::Mutex<Vec<(u64, Result<Violation, String>)>> = std::sync::Mutex::new(Vec::new());
+    let next = std::sync::atomic::AtomicUsize::new(0);
+    std::thread::scope(|sc| {
+      for _ in 0..workers {
+        sc.spawn(|| loop {
+          let i = next.fetch_add(1, std::sync::atomic::Ordering::SeqCst);
+          if i >= deaths.len() {
+            break;
+          }
+          let r = c05t::death_to_violation(check, seed, tier, deaths[i]);
+          results.lock().unwrap().push((deaths[i].idx, r));
+        });
+      }
+    });
+    let mut rs = results.into_inner().unwrap();
+    rs.sort_by_key(|x| x.0);
+    for (idx, r) in rs {
+      match r {
+        Ok(v) => raw.push((idx, v)),
+        Err(e) => {
+          notes.push(e);
+        }
+      }
+    }
+    for (i, v) in &a.violations {
+      raw.push((*i, v.clone()));
+    }
+  }
+  for n in notes.iter().take(5) {
+    eprintln!("note: {}", n);
+  }
+  *agg.probes.entry("death_unconfirmed".into()).or_default() += notes.len() as u64;
+  // minimise every violation (in parallel), label stack overflows, then group by (class, signature, minimised world)
+  let minimised: std::sync::Mutex<Vec<(u64, Violation)>> = std::sync::Mutex::new(Vec::new());
+  let next = std::sync::atomic::AtomicUsize::new(0);
+  let cache: std::sync::Mutex<std::collections::BTreeMap<String, String>> = std::sync::Mutex::new(Default::default());
+  std::thread::scope(|sc| {
+    for _ in 0..workers {
+      sc.spawn(|| loop {
+        let i = next.fetch_add(1, std::sync::atomic::Ordering::SeqCst);
+        if i >= raw.len() {
+          break;
+        }
+        let (idx, v) = &raw[i];
+        if v.class == "super-polynomial" {
+          minimised.lock().unwrap().push((*idx, v.clone()));
+          continue;
+        }
+        let mut m = c05t::minimise_world("c05", v, 120);
+        if m.class == "stack-overflow" || m.class == "abort" || m.class == "abort-on-allocation" {
+          let key = m.world.to_string();
+          let cached = cache.lock().unwrap().get(&key).cloned();
+          let wh = match cached {
+            Some(w) => w,
+            None => {
+              let w = c05t::gdb_where("c05", &m.world);
+              cache.lock().unwrap().insert(key, w.clone());
+              w
+            }
+          };
+          m.signature = format!("{}:{}", m.signature, wh);
+        }
+        if m.class == "hang" {
+          // confirm alone against 3 x T(n), T(n) = 5 s + 1 us x n^3
+          let n = c05::World::from_json(&m.world).size() as f64;
+          let t = 3.0 * (5.0 + 1e-6 * n * n * n);
+          if t > 600.0 {
+            m.class = "slow-unconfirmed".into();
+          } else {
+            let r = exec_isolated("c05", &m.world, t.ceil() as u64);
+            if r.how != "timeout" {
+              m.class = "slow-but-returns".into();
+            } else {
+              m.detail = format!("{} (alone, still not returned after {:.0} s = 3 x T({}) )", m.detail, t, n);
+            }
+          }
+        }
+        minimised.lock().unwrap().push((*idx, m));
+      });
+    }
+  });
+  let mut minimised = minimised.into_inner().unwrap();
+  minimised.sort_by_key(|x| x.0);
+  let mut findings = Vec::new();
+  let mut seen: Vec<(String, String, bool)> = Vec::new();
+  for (run, v) in minimised {
+    if v.class == "slow-unconfirmed" || v.class == "slow-but-returns" {
+      *agg.probes.entry(v.class.replace('-', "_")).or_default() += 1;
+      continue;
+    }
+    // keep one finding per (class, signature, known?) -- a known match must not hide an unknown one
+    let is_known = known.iter().any(|k| {
+      k.status == "known" && k.property == "C05" && k.class == v.class && k.signature == v.signature && k.predicate.as_ref().map(|p| c05t::predicate(p, &v)).unwrap_or(true)
+    });
+    let key = (v.class.clone(), v.signature.clone(), is_known);
+    if seen.contains(&key) {
+      if is_known {
+        findings.push(report::Finding { run, violation: v });
+      }
+      continue;
+    }
+    seen.push(key);
+    findings.push(report::Finding { run, violation: v });
+  }
+  // merge phase 1 into the evidence
+  agg.evaluations += gagg.evaluations;
+  agg.ops += gagg.ops;
+  agg.children += gagg.children;
+  agg.nontrivial += gagg.nontrivial;
+  for fp in &gagg.distinct {
+    agg.distinct.insert(*fp);
+  }
+  for (k, v) in &gagg.probes {
+    *agg.probes.entry(k.clone()).or_default() += v;
+  }
+  let mut samples = gagg.samples.clone();
+  samples.extend(agg.samples.clone());
+  agg.samples = samples;
+  agg.harness_errors.extend(gagg.harness_errors.clone());
+  let mut deaths = gagg.deaths.clone();
+  deaths.extend(agg.deaths.clone());
+  agg.deaths = deaths;
+  *agg.faults.entry("allocator_budget_armed_runs".into()).or_default() += agg.evaluations;
+  *agg.faults.entry("stack_budget_8MiB_runs".into()).or_default() += agg.evaluations;
+  *agg.faults.entry("watchdog_armed_runs".into()).or_default() += agg.evaluations;
+  let rep = report::Report {
+    property: "C05",
+    check: "c05",
+    seed,
+    tier,
+    level: "exploration",
+    rule: "one evaluation = one world (schema text + JSON + CBOR + CSV documents; built from fixtures, from a random document with a schema inferred from it, from the grammar, or from a nesting/size family within the 64 KiB / depth-64 bounds; 0-3 faults on the stored bytes) executed through parse, checked parse, root name, format (+ reparse and reformat), JSON / CBOR / CSV validation (both header flags) and decode_cbor in a disposable child with an allocator budget, an 8 MiB stack and a 20 s watchdog; plus one evaluation per (family, operation) of the allocator-call growth series. non-trivial = the schema parsed and at least one validator got past document parsing; distinct = distinct FNV digests of (world bytes, per-operation outcomes)".into(),
+    assumptions: vec![
+      "allocator budget: a single request above max(4 MiB, 1024 x input size) or more than 1 GiB live is memory the input does not justify".into(),
+      "time bound T(n) = 5 s + 1 us x n^3; a hang is reported only after minimisation and confirmation alone against 3 x T(n) (<= 10 min), otherwise counted under the probe slow_unconfirmed".into(),
+      "growth check: allocator calls are a proxy for work; >= 12x per +4 nesting levels (or >= 64x per doubling of size) twice in a row is super-polynomial".into(),
+      "gdb only labels stack overflows; the verdict is the death of the child, confirmed by re-executing the world alone".into(),
+    ],
+    real_components: vec!["cddl library of the /repo working tree (all public non-wasm entry points)".into(), "all of its dependencies as locked by /repo/Cargo.lock".into(), "the system allocator behind the counting/budget shim".into()],
+    stub_components: vec!["none".into()],
+    extra: Default::default(),
+  };
+  report::finish(&rep, &agg, findings, t0.elapsed().as_secs_f64(), None, &|p, v| c05t::predicate(p, v))
 }
 
 // ------------------------------------------------------------------------------------------------
